@@ -545,6 +545,40 @@ func (dm *DagModifier) appendData(nd ipld.Node, spl chunker.Splitter) (ipld.Node
 
 	switch nd := nd.(type) {
 	case *mdag.ProtoNode:
+		// A file that fits in one node keeps its data in that node. Nodes with
+		// children must not carry file data of their own: the reader, modifyDag
+		// and dagTruncate all take the children to be the whole content. So before
+		// such a node grows it becomes the first leaf of a new root, like a RawNode.
+		if len(nd.Links()) == 0 {
+			fsn, err := ft.FSNodeFromBytes(nd.Data())
+			if err != nil {
+				return nil, err
+			}
+			if len(fsn.Data()) > 0 {
+				if err := dagserv.Add(dm.ctx, nd); err != nil {
+					return nil, err
+				}
+				fileNode := ft.NewFSNode(ft.TFile)
+				fileNode.AddBlockSize(uint64(len(fsn.Data())))
+				if fsn.Mode() != 0 {
+					fileNode.SetMode(fsn.Mode())
+				}
+				if !fsn.ModTime().IsZero() {
+					fileNode.SetModTime(fsn.ModTime())
+				}
+				fileNodeBytes, err := fileNode.GetBytes()
+				if err != nil {
+					return nil, err
+				}
+				root := mdag.NodeWithData(fileNodeBytes)
+				root.SetCidBuilder(nd.CidBuilder())
+				if err := root.AddNodeLink("", nd); err != nil {
+					return nil, err
+				}
+				nd = root
+			}
+		}
+
 		// ProtoNode can be directly passed to trickle.Append
 		dbp := &help.DagBuilderParams{
 			Dagserv:    dagserv,
